@@ -8,7 +8,7 @@ def jobs(tier, ctx):
                         inputs='parent pointers, flags, havoc forests and destruct flags for the first 2 callbacks, error choices',
                         assumptions=['callbacks = havoc to any forest state (later callbacks leave the graph alone); command sentences empty; 3 objects']))
     out.append(dict(name='destruct_object', srcs=['@harness/C08/move.c', 'src/simulate.c'], stubs=BASE, defs=['DEST=1', 'MODE_DESTRUCT=1', 'NHAVOC=1', 'VMW_HAVE_SIMULATE=1'], unwind=5,
-                    unwindset=['destruct_object:3', 'move_object:2'], nobody_ok=['*'], targets=['destruct_object'], timeout=700, mem_gb=10,
+                    unwindset=['destruct_object:3', 'move_object:2', 'destruct_object.0:4'], nobody_ok=['*'], targets=['destruct_object'], timeout=700, mem_gb=10,
                     opt_witness=['destructed', 'destruct_with_move_or_destruct_callbacks', 'move_raised_error', 'end'],
                     desc='destruct_object(object 0) from any forest over 3 objects; every move_or_destruct() callback of a content replaces the graph by another arbitrary forest (it may move object 0 itself) and may raise an error: afterwards the destructed object is in no inventory, holds nothing, is off the object list, and the forest invariant holds (also at every callback and on the error path)',
                     inputs='parent pointers, flags, havoc forest and destruct flags for the first callback, error choices',
